@@ -510,8 +510,10 @@ func (r *renderer) stmt(s Stmt) {
 	case Throw:
 		r.kw("抛出")
 		r.id(v.Class)
-		r.colon()
-		r.args(v.Args)
+		if len(v.Args) > 0 { // the arguments are optional (BNF)
+			r.colon()
+			r.args(v.Args)
+		}
 		r.bang()
 	case Break:
 		r.kw("结束循环")
